@@ -528,6 +528,41 @@ impl Space for ZonedNamed {
         for t in tr.iter().step_by(step) {
             probes.extend([*t - 1, *t, *t + 1_800 * NS]);
         }
+        // instants that the to-string rounding moves onto (or across) a transition
+        let mut rounded_probes: Vec<i128> = vec![1_614_834_367_008_009_010];
+        for t in tr.iter().step_by(step) {
+            rounded_probes.extend([*t - 1, *t - 400_000_000, *t - 20 * NS, *t + 400_000_000, *t + 20 * NS]);
+        }
+        for t in rounded_probes {
+            let Oc::Ok(z) = call(|| ZonedDateTime::try_new(t, Calendar::default(), tz.clone())) else { continue };
+            for (pm, pi, su) in [(Prec::Digits(0), Precision::Digit(0), None), (Prec::Minute, Precision::Auto, Some(Unit::Minute)), (Prec::Digits(3), Precision::Digit(3), None)] {
+                for mode in [Mode::Ceil, Mode::HalfExpand, Mode::Floor] {
+                    // The specification rounds the instant "as if positive"; for a negative instant on an exact
+                    // tie halfExpand read by its name picks the other neighbour (see C07): either reading is
+                    // accepted, but the text must be the complete, consistent text of that rounded instant.
+                    let r = tmc_ref::r4::round_as_if_positive(t, inc_of(pm).unwrap().ns, mode);
+                    let r2 = tmc_ref::r4::round(t, inc_of(pm).unwrap().ns, mode);
+                    let text_of = |r: i128| {
+                        let o = rz.zone.offset_at(r);
+                        let local = r + o as i128 * NS;
+                        let (y, m, d) = civil_from_days(local.div_euclid(NS_PER_DAY) as i64);
+                        let rounded = tmc_ref::r4::round(o as i128, 60, Mode::HalfExpand) as i64;
+                        format!("{}T{}{}[{name}]", date_text(y, m, d), time_text(local.rem_euclid(NS_PER_DAY), pm), offset_text(rounded))
+                    };
+                    let o = rz.zone.offset_at(r);
+                    let want = vec![text_of(r), text_of(r2)];
+                    if r != r2 {
+                        out.unjudged += 1;
+                    }
+                    use temporal_rs::provider::TimeZoneProvider;
+                    let p_off = [r, r2, t].iter().all(|x| call(|| provider.get_named_tz_offset_nanoseconds(name, *x)).ok().map(|y| y.offset) == Some(rz.zone.offset_at(*x)));
+                    let attrs = || vec![("provider_offset", if p_off { "right" } else { "wrong" }.to_string()), ("zone", name.clone()), ("instant", t.to_string()), ("rounded_instant", r.to_string()), ("offset_changes_by_rounding", (rz.zone.offset_at(t) != o).to_string()), ("precision", format!("{pm:?}")), ("mode", format!("{mode:?}")), ("region", if rz.file.trans.first().map(|x| t < x.0 as i128 * NS).unwrap_or(true) { "before_first_transition" } else if t > rz.last_table as i128 * NS { "after_table" } else { "table" }.to_string())];
+                    let opts = ToStringRoundingOptions { precision: pi, smallest_unit: su, rounding_mode: Some(imode(mode)) };
+                    let got = call(|| z.to_ixdtf_string_with_provider(DisplayOffset::Auto, DisplayTimeZone::Auto, DisplayCalendar::Auto, opts, &provider));
+                    out.lockstep("ZonedDateTime::to_ixdtf_string(named zone)", &Ok(want.clone()), &got, |a, b| a.contains(b), attrs);
+                }
+            }
+        }
         for t in probes {
             let o = rz.zone.offset_at(t);
             let local = t + o as i128 * NS;
